@@ -523,3 +523,30 @@ reg["C06"]["explanation"] += "; start-up on an existing database: the real Start
 reg["C15"]["explanation"] += "; wiring: the real Config.APISubsystems instantiates exactly the enabled front ends under their own kinds"
 for k in ("C12", "C11", "C06", "C08", "C13", "C15", "C16", "C17", "C18", "C19"):
     reg[k]["assumptions"] = reg[k].get("assumptions", []) + ["wiring harnesses: goroutines launched by Start functions are not run; the launch (function, receiver) is recorded and is what the obligations speak about"]
+QUEUED = {"name": "VH_SN_Queued", "pkg": "internal/app/subsystems/aio/sender", "labels": ["C19:"], "reach": ["both-queued"]}
+for k in ("C08", "C18", "C19", "C20"):
+    reg[k]["harnesses"].append(dict(QUEUED))
+reg["C20"]["explanation"] += "; two messages handed to a transport one after the other and both still queued each keep their own body and address (byte slices that share a reused buffer's storage become arbitrary when the buffer is written again: bytes.Buffer / json.Encoder aliasing model)"
+LOOPCLK = {"name": "VH_C04_LoopClock", "pkg": "internal/kernel/system", "labels": ["C04:"], "reach": ["done"]}
+for k in ("C04", "C07", "C09"):
+    reg[k]["harnesses"].append(dict(LOOPCLK))
+reg["C04"]["outside"] = [o for o in reg["C04"]["outside"] if "wall clock to tick mapping" not in o] + ["that the operating system's clock itself is monotone"]
+reg["C04"]["explanation"] += "; the instant a tick runs at is a reading of the server clock taken after the wait that preceded the tick (real System.Loop over a clock that advances at every blocking select): a remembered, older instant is a violation"
+for k in ("C07", "C09"):
+    reg[k]["explanation"] += "; lease arithmetic is on the server clock: every tick of the real kernel loop runs at a clock reading taken after the preceding wait"
+# the notification / hand-off payload (C01, C19, C20): posed where the dispatch cycle runs
+PAYLOAD = ["C19:notification-carries", "C19:message-carries"]
+for k in ("C01", "C19", "C20", "C08"):
+    have = [h for h in reg[k]["harnesses"] if h["name"] == "VH_D_Enqueue"]
+    if have:
+        for h in have:
+            h["labels"] = sorted(set(h["labels"] + PAYLOAD))
+    else:
+        for h in [h for h in reg["C08"]["harnesses"] if h["name"] == "VH_D_Enqueue" and h.get("opts", {}).get("warm", 0) == 0]:
+            e = dict(h); e["labels"] = list(PAYLOAD); e["opts"] = dict(h["opts"]); e["opts_thorough"] = dict(h.get("opts_thorough", h["opts"]))
+            reg[k]["harnesses"].append(e)
+    reg[k]["explanation"] += "; the promise that travels with a dispatched message (the notification's payload) is the task's own root promise as stored when the dispatch cycle read it, and the message carries the stored task"
+# two tasks in one dispatch cycle (pairing of tasks with the promises read for them): C19 quick tier, SQLite
+reg["C19"]["harnesses"].append({"name": "VH_D_Enqueue", "pkg": CO, "labels": list(PAYLOAD) + ["C08:message-names"], "reach": ["hand-off"],
+    "opts": {"slots.callbacks": 0, "slots.locks": 0, "slots.schedules": 0, "slots.promises": 2, "slots.tasks": 2, "batch": 2},
+    "opts_thorough": {"slots.callbacks": 0, "slots.locks": 0, "slots.schedules": 0, "slots.promises": 2, "slots.tasks": 3, "batch": 2}})
